@@ -1,6 +1,6 @@
 #!/bin/sh
 # Runs every claimed quick check (as `vp check` does) and prints one line per property.
-cd "$(dirname "$0")/.."
+cd "$(dirname "$0")/.." && mkdir -p work
 for p in $(python3 -c "import json;print(' '.join(c['property_id'] for c in json.load(open('MANIFEST.json'))['checks']))"); do
   [ -n "$1" ] && case " $* " in *" $p "*) ;; *) continue;; esac
   s=$(date +%s); VERIF_SEED=${VERIF_SEED:-1} ./check $p --tier ${VERIF_TIER:-quick} > work/runall_$p.log 2>&1; rc=$?
